@@ -139,6 +139,18 @@ func (e *Eval) Prepare(flags ...[]byte) error {
 	}
 
 	//
+	// Offsets and indexes are encoded in sixteen bits.
+	//
+	if len(e.instructions) > 65535 || len(e.constants) > 65535 {
+		return fmt.Errorf("the script is too large to compile")
+	}
+	for name, fn := range e.functions {
+		if len(fn.Bytecode) > 65535 {
+			return fmt.Errorf("the function %s is too large to compile", name)
+		}
+	}
+
+	//
 	// If we've got the optimizer enabled then set the environment
 	// variable, so that the virtual machine knows it should
 	// run a series of optimizations.
